@@ -4,6 +4,7 @@ and headers (Content-Length included; timestamp masked) and no body; OPTIONS is 
 success carrying the preflight grants when an Origin is given."""
 from vlib import common as C, serve as S, reqgen as G, strict_http as H, servecheck as K
 
+DRIVERS = ['Serve']   # model driver files this check runs: scopes translator failures to the tables they (and the proofs) import
 TRUSTED = []
 ASSUMPTIONS = []
 WITH_MODEL = True
